@@ -332,7 +332,7 @@ def judge_exec(sim, rec, res, case):
             final = h.get('target_state') or h['kind'].split(':')[-1]
             truthful = (rps.DONE if spec['ending'] not in ('exit', 'signal')
                         else rps.FAILED)
-            finished_first = spec['ending'] != 'long'
+            finished_first = spec['ending'] not in ('long', 'hang')
             if spec['poison']:
                 truthful = rps.FAILED
             if uid in sim.cancel_faults:
